@@ -24,6 +24,51 @@ type hop struct {
 	keys   []string
 	fields [][2]any // key, schema id
 	asMap  bool     // Pick/Omit given a map[string]bool (with some false entries) instead of strings
+	// argv: explicit argument list (strings and map[string]bool values, several mentions of one key, `false`
+	// entries before and after a string / `true` mention of the same key); the selection is still `keys`
+	argv []any
+}
+
+// mixedArgs spreads the selected keys over string arguments and `true` entries of up to two maps, and adds
+// `false` entries (which select nothing) for arbitrary keys — also for keys selected by an EARLIER or LATER
+// argument: the selection is the union of the string and `true` mentions.
+func mixedArgs(r *rng.R, keys []string) []any {
+	var out []any
+	cur := map[string]bool{}
+	flush := func() {
+		if len(cur) > 0 {
+			out = append(out, cur)
+			cur = map[string]bool{}
+		}
+	}
+	for _, k := range keys {
+		switch r.Intn(3) {
+		case 0:
+			flush()
+			out = append(out, k)
+		default:
+			cur[k] = true
+		}
+		if r.P(1, 3) {
+			flush()
+		}
+	}
+	flush()
+	// false mentions, as separate trailing / leading maps
+	fm := map[string]bool{}
+	for _, k := range helperKeys {
+		if r.P(1, 2) {
+			fm[k] = false
+		}
+	}
+	if len(fm) > 0 {
+		if r.P(1, 2) {
+			out = append(out, fm)
+		} else {
+			out = append([]any{fm}, out...)
+		}
+	}
+	return out
 }
 
 var helperKeys = []string{"a", "b", "c", "d"}
@@ -105,7 +150,9 @@ func runHelperProgram(ops []hop, usePosts bool) (string, string) {
 			case "pick", "omit":
 				if o.i < len(objs) {
 					var arg []any
-					if o.asMap {
+					if o.argv != nil {
+						arg = o.argv
+					} else if o.asMap {
 						m := map[string]bool{}
 						for _, k := range helperKeys {
 							m[k] = false
@@ -171,7 +218,7 @@ func runHelperProgram(ops []hop, usePosts bool) (string, string) {
 
 func streamHelpers(seed uint64, n int, driver string) (*Summary, error) {
 	sum := newSummary("helpers", seed)
-	sum.Rule = "random programs (3..14 ops) over Struct / Test|PostTransform / Pick / Omit / Extend / Merge; bases are given several tests first so that their slices have spare capacity; siblings are derived from one base and extended in interleaved orders; Pick/Omit take strings or map[string]bool; afterwards every schema object is executed and observed; each program runs twice (Tests, then PostTransforms); non-trivial = at least two objects derived from one base, one of them extended afterwards; distinct = distinct program"
+	sum.Rule = "random programs (3..14 ops) over Struct / Test|PostTransform / Pick / Omit / Extend / Merge; bases are given several tests first so that their slices have spare capacity; siblings are derived from one base and extended in interleaved orders; Pick/Omit take strings, one map[string]bool, or a mixed argument list (strings, several maps, false entries for keys selected by another argument); afterwards every schema object is executed and observed; each program runs twice (Tests, then PostTransforms); non-trivial = at least two objects derived from one base, one of them extended afterwards; distinct = distinct program"
 	root := rng.New(seed)
 	var lines []string
 	var progs [][]hop
@@ -246,7 +293,11 @@ func streamHelpers(seed uint64, n int, driver string) (*Summary, error) {
 						ks = append(ks, k)
 					}
 				}
-				ops = append(ops, hop{kind: "pick", i: i, keys: ks, asMap: r.P(1, 3)})
+				h := hop{kind: "pick", i: i, keys: ks, asMap: r.P(1, 3)}
+				if r.P(1, 3) {
+					h.argv = mixedArgs(r, ks)
+				}
+				ops = append(ops, h)
 				derivedFrom[len(keysOf)] = i
 				keysOf = append(keysOf, ks)
 			case 5:
@@ -261,7 +312,11 @@ func streamHelpers(seed uint64, n int, driver string) (*Summary, error) {
 				if r.P(1, 4) {
 					ks = append(ks, "zz") // omitting a key that is not there is harmless
 				}
-				ops = append(ops, hop{kind: "omit", i: i, keys: ks, asMap: r.P(1, 3)})
+				h := hop{kind: "omit", i: i, keys: ks, asMap: r.P(1, 3)}
+				if r.P(1, 3) {
+					h.argv = mixedArgs(r, ks)
+				}
+				ops = append(ops, h)
 				derivedFrom[len(keysOf)] = i
 				keysOf = append(keysOf, rest)
 			case 6:
